@@ -43,6 +43,7 @@ OPTIONS = {
     "trim_attribute_space": ('<a  x="1"\n    y="2">z</a>', {}, False, True),
     "strict": ('<a tal:condition="False" tal:content="][">z</a>', {}, True, False),
     "tokenizer": ("<a>@@</a>", {}, False, True),
+    "expression_types(partial)": ('<p tal:content="fmt:Hello ${name}!">x</p>', {"name": "World"}, "upper", "lower"),
 }
 
 
@@ -74,6 +75,8 @@ def case_for(option, value, body, kwargs, cls="PageTemplate", filename=None):
         opts = {"implicit_i18n_translate": value, "_translate": True}
     elif option == "tokenizer":
         opts = {"_tokenizer": True} if value else {}
+    elif option == "expression_types(partial)":
+        opts = {"_exprtype": value}
     elif option is not None:
         opts = {option: value}
     return {"cls": cls, "body": body, "options": opts, "kwargs": kwargs, "filename": filename}
